@@ -18,14 +18,15 @@ What was built, and why it deviates from "one fork + os._exit(137) per step":
     os.close, open, write, close, chmod, two digests) and pipeline side (exists, rename | unlink |
     cross-device copy steps, table .dat/.dir open/write/close/chmod, the reply to the set) alike --
     which copies db/, dbs/, stg/ into a crash image and snapshots the model with the value being
-    stored marked "may or may not be recorded".  Steps that changed nothing on disk since the
-    previous image share it (fingerprint of names, sizes, mtimes).
+    stored marked "may or may not be recorded".  Steps before which nothing changed on disk since
+    the previous image share it (the wrappers know whether a disk-changing step ran in between; no
+    clock or mtime is consulted).
   * after the phase every image is opened by a *new incarnation*: the real DBI.open() on the image
     (the history's own handles are kept aside, worlds.store_env.swapped_store), which first reads
     EVERYTHING back -- six tables, every key and value, both directories; an exception is the
     violation store_unreadable -- and is then judged by the catalogue / model / store oracles.
   * calibrate_real_kill: the equivalence "image before step k == what a real kill before step k
-    leaves" is itself tested in every third run: a forked victim runs one update on a copy under the
+    leaves" is itself tested in one run of four: a forked victim runs one update on a copy under the
     boring chooser, takes the image before step k and then REALLY dies -- os._exit(137) for a
     pipeline-side step; for a worker-side step only the client dies (thread never released again, no
     finally block runs, sockets reset), the pipeline sees the lost connection and is then ended with
@@ -178,15 +179,9 @@ def parse_report(data):
 # --------------------------------------------------------------------------
 
 
-def fingerprint(d):
-    out = []
-    for sub in ('db', 'dbs', 'stg'):
-        with os.scandir(os.path.join(d, sub)) as it:
-            for e in it:
-                st = e.stat()
-                out.append((sub, e.name, st.st_size, st.st_mtime_ns))
-    out.sort()
-    return tuple(out)
+def side_name(label):
+    """signatures name the side of the crashed step only (the step itself is in the message): one group per defect"""
+    return 'crash_at_worker_step' if label.startswith('W') else 'crash_at_pipeline_step'
 
 
 def same_tree(a, b):
@@ -283,7 +278,7 @@ class Imager:
                 w.probes['crash_image_checked'] += 1
                 w.sim.log('crashpoint', f'{label}:{len(verdict)}')
                 for v in verdict:
-                    w.violate(v['property'], v['rule'], f"{v['signature']}@{label}",
+                    w.violate(v['property'], v['rule'], f"{v['signature']}@{side_name(label)}",
                               f'crash immediately before I/O step {label} while storing [{text}]: ' + v['message'], fatal=False)
                 if w.stopped:
                     break
@@ -438,7 +433,7 @@ def calibrate_real_kill(w):
         w.crash_points += 1
         w.sim.log('realkill', f'{k}:{crash}:{len(acks)}')
         for v in check_image(w, dk, model):
-            w.violate(v['property'], v['rule'], f"{v['signature']}@{crash}",
+            w.violate(v['property'], v['rule'], f"{v['signature']}@{side_name(crash)}",
                       f'real kill before I/O step {crash} of [{w.describe(op)}] after {len(acks)} acknowledged values: ' + v['message'], fatal=False)
     finally:
         shutil.rmtree(dk, ignore_errors=True)
@@ -454,7 +449,7 @@ def enumerate_updates(w):
         w.imager = Imager(w)
         w.imager.arm()
         try:
-            w.phase(mix=cfg['mix_enum'], max_clients=cfg['enum_clients'], msv=False)
+            w.phase(mix=cfg['mix_enum'], max_clients=cfg['enum_clients'], msv=False, nops=cfg['enum_ops'])
         finally:
             w.imager.disarm()
         try:
